@@ -12,6 +12,7 @@ mod props;
 mod qast;
 mod qgen;
 mod reference;
+mod schema_gen;
 mod schema_model;
 mod values;
 mod wrappers;
